@@ -51,6 +51,11 @@ fn spellings() -> Vec<Spelling> {
     ];
     let mut v: Vec<Spelling> = plain.iter().map(|s| sp(s)).collect();
     v.push(sp("[\"a B\"]"));
+    // literal / comment / DATA text that spells an identifier of the table in lower case:
+    // interning must not let protected text decide the spelling of a later symbol
+    v.push(sp("[\"x1\"]"));
+    v.push(sp("[\"score\"]"));
+    v.push(sp("DATA [x1], [fna]"));
     v.push(sp("REM[ x Y]"));
     v.push(sp("DATA [a b], [\"c D\"] ,[3]"));
     v.push(sp("DATA [\"q\"]"));
@@ -179,7 +184,7 @@ fn apply(b: &Base, devs: &[Dev]) -> String {
 }
 
 fn outcome(line: &str) -> String {
-    match guarded(|| tokenize(line)) {
+    match watch_text("line", line, || guarded(|| tokenize(line))) {
         Ok(Ok(t)) => format!("{:?}", t.iter().map(|x| format!("{:?}", x.0)).collect::<Vec<_>>()),
         Ok(Err(e)) => format!("error {}", e.kind),
         Err(p) => format!("panic {}", short_panic(&p)),
